@@ -22,7 +22,15 @@ fn codec_tables<A: VC>() {
     println!("bits {}", A::BITS);
     println!("has_comp {}", A::HAS_COMP as u8);
     println!("has_mask {}", A::HAS_MASK as u8);
-    line("items", A::items().map(|x| x.to_bits().to_string()));
+    // `u8::from(symbol)` (where the codec has it) must be the symbol's code: a disagreement shows up as
+    // an impossible item code
+    line(
+        "items",
+        A::items().map(|x| match x.sym_into_u8() {
+            Some(v) if v != x.to_bits() => (1000 + v as u32).to_string(),
+            _ => x.to_bits().to_string(),
+        }),
+    );
     let all = 0u16..=255;
     line(
         "try_bits",
